@@ -43,6 +43,10 @@ DamageOk == LET P == Layout(Ev.off, Ev.lens) IN
                      \/ Ev.dmg[d].zerotype = 1 /\ Matches(Ev.dmg[d].recs, surv, Ev.lens)
                      \* a whole block reads back as zeros: it looks like a preallocated region and is skipped; every record with a
                      \* fragment in it is dropped as a whole, and the drop is reported when the block interrupts a fragmented record
+                     \* an unknown record type with a valid checksum: exactly the logical record it belongs to is dropped (and
+                     \* reported); the records before and after it, also those in the same block, are returned
+                     \/ Ev.dmg[d].cls = "unknowntype" /\ Ev.dmg[d].drops >= 1
+                        /\ Matches(Ev.dmg[d].recs, SortSet({j \in 1..NRecs(P) : j # P[i].rec}), Ev.lens)
                      \/ Ev.dmg[d].cls = "zeroblock" /\ Matches(Ev.dmg[d].recs, surv, Ev.lens)
                         /\ (P[i].type \in {MIDDLE, LAST} => Ev.dmg[d].drops >= 1)
 \* (X = TRUE): evaluated as values; as action conjuncts TLC would branch on every disjunction inside them
